@@ -617,6 +617,76 @@ def _rule_case(units, ck, then_cls, else_cls):
     return Case("%s,if_%s_of_%s,then_%s,else_%s" % (units.name, attr, nm(ccls), nm(then_cls), nm(else_cls)), build, crosscheck=False)
 
 
+def _premise_pair(rule_w, rule_r, conds, ops, then_action, model):
+    # harness text: premises written one by one with the writer's own conjunction prefixes (as its recursion over And / Or trees does), then read
+    rule_w.add_control_condition(conds[0])
+    for i in range(len(ops)):
+        rule_w.add_control_condition(conds[i + 1], "  " + ops[i])
+    rule_w.add_action_on_true(then_action)
+    rule_r._if_clauses = list(rule_w._if_clauses)
+    rule_r._then_clauses = list(rule_w._then_clauses)
+    rule_r._else_clauses = list(rule_w._else_clauses)
+    return rule_r.generate_control(model)
+
+
+def _rule_premises_case(ops):
+    """IF c0 <op1> c1 <op2> c2 ...: the condition tree built by the reader has, for every truth assignment of the premises, the value EPANET computes for
+    the same text. EPANET (rules.c, evalpremises) walks the list left to right: 'OR p': if the running value is false it becomes p; 'AND p': if the running
+    value is false the rule is false at once, else it becomes p. (IF A AND B OR C is A and (B or C).)"""
+    def build(cx):
+        import itertools as it
+        import wntr.network.controls as ctl
+        from wntr.epanet.io import _EpanetRule
+        names = [cx.name("junction_%d" % i) for i in range(len(ops) + 1)]
+        tn = cx.name("valve")
+        cx.assume(z3.Distinct(*[cx.t(n) for n in names + [tn]]))
+        els = [SymObj(Junction, dict(_name=n)) for n in names]
+        te = SymObj(TCValve, dict(_link_name=tn))
+        conds = [SymObj(ctl.ValueCondition, dict(_source_obj=e, _source_attr="pressure", _relation=ctl.Comparison.ge, _threshold=cx.real("threshold_%d" % i)))
+                 for i, e in enumerate(els)]
+        ta = SymObj(ctl.ControlAction, dict(_target_obj=te, _attribute="setting", _value=cx.real("then_value")))
+        mk = lambda: SymObj(_EpanetRule, dict(inp_units=FlowUnits.LPS, mass_units=MassUnits.mg, ruleID="r", _if_clauses=[], _then_clauses=[], _else_clauses=[], priority=0))
+        model = _RuleModel(list(zip(names, els)) + [(tn, te)])
+        cx.target(_premise_pair, mk(), mk(), conds, list(ops), ta, model)
+
+        def post(out):
+            if not out.returned:
+                return []
+            r = out.value
+            if not (isinstance(r, tuple) and r[0] == "Rule"):
+                return [("a_rule_is_built", False)]
+
+            def ev(t, val):
+                if t[0] == "ValueCondition":
+                    return val[[i for i, e in enumerate(els) if t[1][0] is e][0]]
+                a, b = ev(t[1][0], val), ev(t[1][1], val)
+                return (a and b) if t[0] == "AndCondition" else (a or b)
+
+            def epanet(val):
+                res = val[0]
+                for op, v in zip(ops, val[1:]):
+                    if op == "OR":
+                        if not res:
+                            res = v
+                    else:
+                        if not res:
+                            return False
+                        res = v
+                return res
+            try:
+                same = all(ev(r[1][0], val) == epanet(val) for val in it.product((False, True), repeat=len(els)))
+            except Exception:
+                same = False
+            return [("the_condition_tree_has_the_truth_table_of_epanet_s_left_to_right_evaluation", same)]
+        cx.ensure(post)
+    return Case("IF c0 " + " ".join("%s c%d" % (o, i + 1) for i, o in enumerate(ops)), build, crosscheck=False)
+
+
+def _premise_ops():
+    import itertools as it
+    return [ops for k in (1, 2, 3) for ops in it.product(("AND", "OR"), repeat=k)]
+
+
 # ---------------------------------------------------------------------------- [EMITTERS] and [ENERGY]
 
 class _Bag(NativeModel):
@@ -1412,6 +1482,9 @@ CONTRACTS = [
              [_rule_case(u, ck, _ACT_KINDS[ck % 6], _ACT_KINDS[(ck + 2) % 6]) for u in _U for ck in range(len(_COND_KINDS))],
              models=_rule_models, interpret_always=(_rule_pair,),
              trusted=_pair_trust + ["text splitting of the [RULES] section into clauses (parse_rules_lines): bounded round trip"]),
+    Contract("wntr.epanet.io:_EpanetRule.generate_control (premises joined by AND / OR)", P + ["C03", "C13"], [_rule_premises_case(o) for o in _premise_ops()],
+             models=_rule_models, interpret_always=(_premise_pair,),
+             trusted=_pair_trust + ["EPANET's premise evaluation (rules.c, evalpremises) as stated in the contract; differential: C03.wntr_vs_epanet (rules_mixing_and_or_text)"]),
     Contract("wntr.epanet.io:InpFile._write_controls/_read_controls/_read_control_line", P + ["C03", "C13"],
              [_control_case(u, *k) for u in _U for k in _CTL_KINDS] +
              [_control_case(u, *k, strict=False) for u in (FlowUnits.GPM, FlowUnits.LPS) for k in _CTL_KINDS[:4]], models=_control_models, interpret_always=(_roundtrip_call,),
